@@ -18,7 +18,10 @@ META = {
     "normal end (C14_full): every job of every node not downstream of a failure was dispatched and has a result on disk, "
     "nodes downstream of a failure never got a job, the submission fails iff some job failed and its error then lists exactly "
     "the failed jobs.  Full after the D10 repair (update_status guards job.done in the running loop); C14_regression_D10 "
-    "replays the old witness in the model.  The model interleaves at poll granularity; the repaired defect D64 (a job failing "
+    "replays the old witness in the model.  C14_dependents_never_run_interleaved / C14_full_interleaved are the same statements for "
+    "the finer semantics in which bodies start, finish and fail before every node.done / p.done read of a poll (Sched/Interleaved.lean; the "
+    "semantics with atomic polls is its special case roundI_nil, and C14_race_instance is the gated witness of the check as a run of it); with the current order of "
+    "tests no hypothesis on the freshness of the tables is needed (nodeDecide_spec).  The repaired defect D64 (a job failing "
     "while get_runnable_tasks is scanning made a successor pass the `p.errored` test on stale tables, be started behind the "
     "failure and abort the workflow) is documented by C14_stale_tables_witness (old order) / C14_stale_tables_regression "
     "(current order: every predecessor refreshed first) and replayed on the real code with the load_result gate.  Dependence is "
@@ -26,19 +29,20 @@ META = {
     "pydra/engine/submitter.py and WorkflowOutputs._from_job by running workflows of 2-6 nodes with every/random fail sets "
     "under the controlled worker with schedules that force 'seen running, then fails', comparing per iteration tasks / "
     "dispatches / pending futures / NodeExecution tables, the executed bodies, the cached results and the jobs named by the error.",
-    "note": "Trusted: Lean kernel; hand-written model (Sched/Model.lean), poll atomic w.r.t. the environment; 'depends on' = some "
+    "note": "Trusted: Lean kernel; hand-written model (Sched/Model.lean, Sched/Interleaved.lean), one update_status call atomic w.r.t. the environment; 'depends on' = some "
     "node upstream has a failing job (the live branch of NodeExecution.get_runnable_tasks waits for whole predecessor nodes, so a "
     "job of an inherited split is treated as depending on every job of the upstream node); the termination of the run is C18's subject.",
     "rule": "case = (workflow graph of 2-6 nodes with splits, fail set, max_concurrent, recorded schedule); distinct by canonical "
     "JSON; non-trivial = >= 3 jobs and a schedule policy other than FIFO completion (every case has >= 1 failing job)",
-    "assumptions": ["a poll (get_runnable_tasks) is atomic with respect to changes on disk", "the worker never loses a job (no 'vanish' move)"],
+    "assumptions": ["one NodeExecution.update_status call is atomic with respect to changes on disk (bodies may start, finish and fail before every node.done / p.done read of a poll: *_interleaved theorems); futures are reported complete between polls", "the worker never loses a job (no 'vanish' move)"],
     "trusted": ["model of NodeExecution.update_status / get_runnable_tasks and of the error collection written by hand (Sched/Model.lean)"],
 }
 
 _NS = "PydraModel.Sched."
 OBLIGATIONS = [
     _NS + n
-    for n in ("C14_dependents_never_run", "C14_full", "C14_regression_D10", "C14_stale_tables_witness", "C14_stale_tables_regression")
+    for n in ("C14_dependents_never_run", "C14_full", "C14_regression_D10", "C14_stale_tables_witness", "C14_stale_tables_regression",
+              "C14_dependents_never_run_interleaved", "C14_full_interleaved", "C14_race_instance")
 ]
 LEAN_TARGETS = ["PydraModel.Props.C14"]
 MODEL_TARGETS = ["PydraModel.Sched.Model", "PydraModel.DriverUtil"]
